@@ -88,7 +88,7 @@ chk("C15", "exploration", GEN + ": literal consistency predicate over the annota
     "Skeletons {mixed expression, the same through a window alias of the buffer, precision across a call via tensor/window/scalar/aliased-window parameter, memory across a call at depth 1-2 for arguments and allocations, window-ness, direct access to a register memory} x every assignment over 4 precisions / 4 memories / window-ness, written in source and reached via set_precision / set_memory / set_window: inconsistent => compile must raise; consistent => compile succeeds and gcc -Wall -Werror=incompatible-pointer-types accepts .c/.h; plus gcc acceptance of the C of every seed and family program.",
     "gcc is the reference for 'valid C'", "DESIGN.md §3 C15")
 chk("C18", "exploration", "fresh-interpreter executions of scripted sessions over a grid of hash seeds, symbol-counter offsets, prior histories, definition orders and salted Sym/proc hashing; byte comparison",
-    "9 sessions (several window structs/configs/externs at two precisions/memories, both static C helpers, tiling+staging schedule, unroll_buffer+replace_all+extract_subproc, many free variables, x86 instructions, two procedures sharing callees, blur schedule with specialize) x 21 variants (each axis exhaustively around the default + pairwise corners; thorough: full 384-variant product): printed procedures, C and header must be byte-identical.",
+    "9 sessions (several window structs/configs/externs at two precisions/memories, both static C helpers, tiling+staging schedule, unroll_buffer+replace_all+extract_subproc, many free variables, x86 instructions, two procedures sharing callees, blur schedule with specialize) x 21 variants (each axis exhaustively around the default + pairwise corners; thorough: 83 variants = the same plus the full product of a 4 x 2 x 4 x 2 sub-grid): printed procedures, C and header must be byte-identical.",
     "the hash-seed axis is a finite sample; salted hashing owns the iteration order of Sym/proc keyed sets", "DESIGN.md §3 C18")
 
 ALL = [f"C{i:02d}" for i in range(1, 20)]
